@@ -12,7 +12,7 @@ variable {ρ β ε : Type}
 /-- Tie to the source: compile()'s loop has the shape the model mirrors (every regex fact holds). -/
 theorem loop_shape_as_modelled :
     loopShape = ⟨true, true, true, true, true, true, true, true⟩ ∧
-    buildClonesAndSelectsByName = true ∧ hlslReportsFunctionName = true := by decide
+    buildClonesAndSelectsByName = true ∧ hlslReportsEmittedName = true := by decide
 
 /-- use classes of `.pipelines` that keep the selected pipeline the only one read after type checking:
     indexing by the selected index, the selection loop itself, the driver loop, construction -/
